@@ -31,6 +31,8 @@ def gen_cases(tier, seed, configs):
         body = ["mark seq", "build bs=%d mode=%d" % (bs, mode), "exec seq flags=%d upper=%d" % (flags, upper), "dump values"]
         # some executors are constructed while fewer threads are allowed than when they execute (object reused after omp_set_num_threads)
         cw = [(" cworkers=%d" % r.choice([1, 1, 2])) if (nw > 2 and r.random() < 0.4) else "" for (_, _, _, nw) in scheds]
+        # the executor's constructors: (configuration, kernel, level) at any level; (configuration, kernel) / (configuration) when the level is the default
+        cw = [x + (" ctor=%d" % (r.choice([1, 2, 3]) if upper == 2 else 3) if r.random() < 0.35 else "") for x in cw]
         for si, (name, code, sd, nw) in enumerate(scheds):
             body += ["mark s%d" % si, "build bs=%d mode=%d" % (bs, mode),
                      "exec omp flags=%d upper=%d sched=%d seed=%d workers=%d%s" % (flags, upper, code, sd, nw, cw[si]), "dump values"]
